@@ -32,6 +32,7 @@ TERMS = {
     'GeneratorExit': sc.BASE_MODES['GeneratorExit'],
     'UserBase': sc.BASE_MODES['UserBase'],
     'Syntax': sc.MODES['Syntax'],
+    'CloseStdout': "import sys\nprint('x')\nsys.stdout.close()",
 }
 ENTRIES = ['run-code', 'call', 'evaluate', 'import']
 TRACERS = ['none', 'native', 'calls']
@@ -45,7 +46,7 @@ TERM_INDEX = {name: i for i, name in enumerate(TERMS)}
 def _setup():
     sc.lazy()
     global INJ
-    INJ = sc.FaultInjector({'_capture_exception'}, REPO_PREFIX)
+    INJ = sc.FaultInjector({'_capture_exception'}, REPO_PREFIX, entry_sites={'append_output'})
     INJ.install()
 
 
@@ -67,7 +68,14 @@ def _tool_b(frame, event, arg):
 AMBIENT = {None: None, 'A': _tool_a, 'B': _tool_b}
 
 
+CONFIGS = {'block-time': lambda sb: sb.block_module('time'), 'block-os': lambda sb: sb.block_module('os'),
+           'mock-len': lambda sb: sb.mock_function('len', lambda x: 42), 'clear-mocks': lambda sb: sb.clear_mocks()}
+
+
 def _do(op):
+    if op[0] == 'config':
+        CONFIGS[op[1]](sc.sb_cmds.get_sandbox())
+        return
     entry, term, tracer, threaded = op[:4]
     sb = sc.sb_cmds.get_sandbox()
     if sb.tracer_style != tracer:      # a style that stays the same keeps its tracer object, as in real use
@@ -97,6 +105,9 @@ def _ops(tier):
                     # the trace function installed by the surrounding tool may differ from call to call
                     ops.append((e, t, tr, False, 'A'))
                     ops.append((e, t, tr, False, 'B'))
+    # instructor configuration of the sandbox between executions
+    for c in CONFIGS:
+        ops.append(('config', c, 'none', False))
     # threaded variants (real thread, generous limit: the student code ends at once)
     for e in ('run-code', 'call'):
         for t in ('normal', 'ValueError', 'sys.exit'):
@@ -172,14 +183,14 @@ def make_histories(ops, max_len):
         canon = repr(hist)
         ctx.observe(canon)
         ctx.set_sample(hist)
-        if any(op[1] != 'normal' for op in hist):
+        if any(op[1] != 'normal' and op[0] != 'config' for op in hist):
             ctx.mark_nontrivial(canon)
         ctx.outcome('clean' if clean else 'leak')
     return body
 
 
 def make_faults(tier):
-    ops = [(e, t, tr, False) for e in ENTRIES for t in ('ValueError', 'sys.exit', 'Syntax')
+    ops = [(e, t, tr, False) for e in ENTRIES for t in ('ValueError', 'sys.exit', 'Syntax', 'normal')
            for tr in TRACERS if not (t == 'Syntax' and e in ('call', 'evaluate'))]
     follow = [None, ('run-code', 'normal', 'none', False), ('call', 'ValueError', 'native', False)]
 
@@ -224,7 +235,7 @@ def make_faults(tier):
 
 def bounds(tier):
     return {'ops': len(_ops(tier)), 'max_history': 2 if tier == 'quick' else 3,
-            'fault_bound': 1, 'fault_anchor': 'Sandbox._capture_exception',
+            'fault_bound': 1, 'fault_anchor': 'every function entry inside Sandbox._capture_exception, and the entry of append_output (recording the output)',
             'fault_ops': 'entry x {ValueError, sys.exit, Syntax} x tracer, followed by none/normal/failing op'}
 
 
